@@ -9,6 +9,7 @@
 #include <QFile>
 #include <QJsonDocument>
 #include <QJsonObject>
+#include <QVariant>
 #include <QTemporaryDir>
 #include <qhttpengine/localauthmiddleware.h>
 #include <qhttpengine/socket.h>
@@ -37,12 +38,29 @@ static Val fileObs(const QString &file, const QByteArray &token, int verdict)
     if (f.open(QIODevice::ReadOnly)) {
         QJsonObject o = QJsonDocument::fromJson(f.readAll()).object();
         for (auto i = o.constBegin(); i != o.constEnd(); ++i) {
-            QByteArray v = i.value().isString() ? i.value().toString().toUtf8() : QJsonDocument(QJsonObject{{"v", i.value()}}).toJson(QJsonDocument::Compact);
+            // values that are no strings come back in the spelling the case uses for them: \x01i<int>, \x01b<0|1>, \x01n
+            QByteArray v;
+            if (i.value().isString()) v = i.value().toString().toUtf8();
+            else if (i.value().isBool()) v = QByteArray("\x01" "b") + (i.value().toBool() ? "1" : "0");
+            else if (i.value().isNull()) v = QByteArray("\x01" "n");
+            else if (i.value().isDouble() && double(qint64(i.value().toDouble())) == i.value().toDouble()) v = QByteArray("\x01" "i") + QByteArray::number(qint64(i.value().toDouble()));
+            else v = QJsonDocument(QJsonObject{{"v", i.value()}}).toJson(QJsonDocument::Compact);
             if (!token.isEmpty() && v == token) v = "<TOKEN>";
             pairs.add(Val::List({Val::Str(i.key()), Val::Bytes(v)}));
         }
     }
     return Val::List({Val::Int(1), Val::Int(st.st_mode & 07777), pairs, Val::Int(verdict)});
+}
+
+// a value of the case: a string, or \x01i<int> (integer), \x01b<0|1> (boolean), \x01n (null)
+static QVariant typedValue(const QByteArray &b)
+{
+    if (b.size() >= 2 && b[0] == '\x01') {
+        if (b[1] == 'i') return QVariant(b.mid(2).toLongLong());
+        if (b[1] == 'b') return QVariant(b.mid(2) == "1");
+        if (b[1] == 'n') return QVariant();
+    }
+    return QVariant(QString::fromUtf8(b));
 }
 
 static Val run_lauth(const Val &c)
@@ -67,7 +85,7 @@ static Val run_lauth(const Val &c)
             }
             break;
         case 1:
-            if (mw) { QVariantMap m; for (auto &kv : op.at(1).l) m.insert(QString::fromUtf8(kv.at(0).asBytes()), QString::fromUtf8(kv.at(1).asBytes())); mw->setData(m); }
+            if (mw) { QVariantMap m; for (auto &kv : op.at(1).l) m.insert(QString::fromUtf8(kv.at(0).asBytes()), typedValue(kv.at(1).asBytes())); mw->setData(m); }
             break;
         case 2: if (mw) mw->setHeaderName(op.at(1).asBytes()); break;
         case 3:
